@@ -156,6 +156,7 @@ Definition wfc (P : list aparam) (id : cid) (c : contract) : Prop :=
   id = (c_hl c, c_sender c, c_to c, c_amount c)
   /\ coins_pos (c_amount c)
   /\ c_sender c <> ESC /\ c_sender c <> BLK /\ c_to c <> ESC /\ c_to c <> BLK
+  /\ (0 <= c_sender c /\ 0 <= c_to c)
   /\ (if c_transfer c then (exists d x, c_amount c = [(d, x)] /\ get_param P d <> None) /\ c_dir c <> DNone
       else c_dir c = DNone).
 
@@ -194,7 +195,8 @@ Record Inv (s : state) : Prop := mkInv {
      exists c, get id (st_contracts s) = Some c /\ c_state c = Open /\ c_exp c = h;
   inv_openq : forall id c, get id (st_contracts s) = Some c -> c_state c = Open ->
      In (c_exp c, id) (st_queue s) /\ st_height s <= c_exp c;
-  inv_log : forall id, filter (ev_for id) (st_log s) = expected_log id (get id (st_contracts s)) }.
+  inv_log : forall id, filter (ev_for id) (st_log s) = expected_log id (get id (st_contracts s));
+  inv_keys : NoDup (keys (st_contracts s)) }.
 
 (** "contract [c] is opened under the fresh id [id]" *)
 Record open_rel (s s' : state) (id : cid) (c : contract) : Prop := mkOpenRel {
@@ -303,6 +305,7 @@ Proof.
     + rewrite or_fresh0. rewrite (filter_ev_same id _ (open_events_id id c)). simpl.
       rewrite or_open0. simpl. rewrite app_nil_r. reflexivity.
     + rewrite (filter_ev_other id id' _ Hne (open_events_id id c)). reflexivity.
+  - rewrite or_contracts0. apply keys_set_NoDup. exact (inv_keys _ I).
 Qed.
 
 Lemma close_rel_inv s s' id c st : Inv s -> close_rel s s' id c st -> Inv s'.
@@ -337,14 +340,15 @@ Proof.
     + rewrite cr_get0. rewrite (filter_ev_same id _ (close_events_id id c st)). simpl.
       rewrite cr_open0. reflexivity.
     + rewrite (filter_ev_other id id' _ Hne (close_events_id id c st)). reflexivity.
+  - rewrite cr_contracts0. apply keys_set_NoDup. exact (inv_keys _ I).
 Qed.
 
 (** ** Part 3: the operations *)
 
-(** the messages' signers and recipients are not the module accounts (module accounts cannot sign,
-    and a transfer to the escrow account itself is a donation, outside the property) *)
+(** the signer of a create message is not a module account (module accounts cannot sign); the histories of
+    the theorems contain no parameter change (see ParamChange.v for what survives one) *)
 Definition wf_op (o : op) : Prop :=
-  match o with Create m => m_sender m <> ESC /\ m_sender m <> BLK /\ m_to m <> ESC | _ => True end.
+  match o with Create m => m_sender m <> ESC /\ m_sender m <> BLK | SetParams _ _ => False | _ => True end.
 
 Lemma with_asset_Some s d f s1 : with_asset s d f = Some s1 ->
   exists a p a', get d (st_assets s) = Some a /\ get_param (st_params s) d = Some p /\ f p a = Some a'
@@ -397,17 +401,29 @@ Proof.
   split; [exact (coins_valid_pos _ H4)|]. unfold MinTimeLock in H5. apply Z.leb_le in H5. exact H5.
 Qed.
 
+Lemma create_basic_addrs m : create_basic m = true -> 0 <= m_sender m /\ 0 <= m_to m.
+Proof.
+  unfold create_basic, addr_ok. intros H.
+  apply andb_true_iff in H. destruct H as [H _].
+  apply andb_true_iff in H. destruct H as [H _].
+  apply andb_true_iff in H. destruct H as [H _].
+  apply andb_true_iff in H. destruct H as [H _].
+  apply andb_true_iff in H. destruct H as [H1 H2]. apply Z.leb_le in H1, H2. auto.
+Qed.
+
 Definition new_contract (s : state) (m : create_msg) (dr : dir) : contract :=
   mkC (m_sender m) (m_to m) (m_amount m) (m_hl m) (m_ts m) (st_height s + m_lock m) Open 0 (m_transfer m) dr.
 
 Lemma create_open_rel s m s' : Inv s -> wf_op (Create m) -> create s m = Some s' ->
   exists dr, open_rel s s' (id_of m) (new_contract s m dr).
 Proof.
-  intros I (Hs1 & Hs2 & Ht1). unfold create.
+  intros I (Hs1 & Hs2). unfold create.
   destruct (negb (create_basic m)) eqn:Hb; [discriminate|]. apply negb_false_iff in Hb.
-  destruct (create_basic_facts m Hb) as [Hpos Hlock].
+  destruct (create_basic_facts m Hb) as [Hpos Hlock]. pose proof (create_basic_addrs m Hb) as Hrng.
   destruct (blocked (m_to m)) eqn:Hbl; [discriminate|].
   assert (Ht2 : m_to m <> BLK) by (unfold blocked in Hbl; apply Z.eqb_neq; exact Hbl).
+  destruct (m_to m =? ESC) eqn:Hte; [discriminate|].
+  assert (Ht1 : m_to m <> ESC) by (apply Z.eqb_neq; exact Hte).
   cbv zeta. destruct (has (id_of m) (st_contracts s)) eqn:Hhas; [discriminate|].
   assert (Hfresh : get (id_of m) (st_contracts s) = None)
     by (unfold has in Hhas; destruct (get (id_of m) (st_contracts s)); [discriminate|reflexivity]).
@@ -427,7 +443,7 @@ Proof.
       inversion Hf; subst a'; clear Hf. apply Z.ltb_ge in C1.
       unfold add_contract, set_bank_log; constructor; sproj; try reflexivity; try assumption.
       * unfold wfc. cbn. split; [unfold id_of; reflexivity|]. split; [exact Hpos|]. split; [exact Hs1|].
-        split; [exact Hs2|]. split; [exact Ht1|]. split; [exact Ht2|].
+        split; [exact Hs2|]. split; [exact Ht1|]. split; [exact Ht2|]. split; [exact Hrng|].
         split; [exists d, x; split; [exact Ham|congruence]|discriminate].
       * cbn. lia.
       * intros d0. unfold w_esc. cbn. lia.
@@ -451,7 +467,7 @@ Proof.
       inversion Hl; subst s1; clear Hl.
       unfold add_contract, set_bank_log; constructor; sproj; try reflexivity; try assumption.
       * unfold wfc. cbn. split; [unfold id_of; reflexivity|]. split; [exact Hpos|]. split; [exact Hs1|].
-        split; [exact Hs2|]. split; [exact Ht1|]. split; [exact Ht2|].
+        split; [exact Hs2|]. split; [exact Ht1|]. split; [exact Ht2|]. split; [exact Hrng|].
         split; [exists d, x; split; [exact Ham|congruence]|discriminate].
       * cbn. lia.
       * intros d0. cbn. rewrite (send_coins_bal _ _ _ _ _ Hs1 Hsend ESC d0). rewrite Z.eqb_refl, Hesc.
@@ -471,7 +487,7 @@ Proof.
     intros H; inversion H; subst s'; clear H. exists DNone.
     unfold add_contract, set_bank_log; constructor; sproj; try reflexivity; try assumption.
     + unfold wfc. cbn. split; [unfold id_of; reflexivity|]. split; [exact Hpos|]. split; [exact Hs1|].
-      split; [exact Hs2|]. split; [exact Ht1|]. split; [exact Ht2|]. reflexivity.
+      split; [exact Hs2|]. split; [exact Ht1|]. split; [exact Ht2|]. split; [exact Hrng|]. reflexivity.
     + cbn. lia.
     + intros d0. cbn. rewrite (send_coins_bal _ _ _ _ _ Hs1 Hsend ESC d0). rewrite Z.eqb_refl, Hesc.
       unfold w_esc, amt. cbn. lia.
@@ -524,7 +540,7 @@ Lemma claim_complete s id c : Inv s -> get id (st_contracts s) = Some c -> c_sta
     /\ close_rel s (dequeue (set_contract s1 id (close c Completed (st_height s))) (c_exp c) id) id c Completed.
 Proof.
   intros I Hg Ho.
-  destruct (inv_wfc _ I _ _ (get_In _ _ _ Hg)) as (Hid & Hpos & Hs1 & Hs2 & Ht1 & Ht2 & Hkind).
+  destruct (inv_wfc _ I _ _ (get_In _ _ _ Hg)) as (Hid & Hpos & Hs1 & Hs2 & Ht1 & Ht2 & Hrng & Hkind).
   assert (Hbl : blocked (c_to c) = false) by (unfold blocked; apply Z.eqb_neq; exact Ht2).
   assert (Hescto : (ESC =? c_to c) = false) by (apply Z.eqb_neq; congruence).
   assert (Hne : ESC <> c_to c) by congruence.
@@ -636,7 +652,7 @@ Lemma refund_complete s id c : Inv s -> get id (st_contracts s) = Some c -> c_st
   close_rel s (dequeue (refund s id c) (c_exp c) id) id c Refunded.
 Proof.
   intros I Hg Ho.
-  destruct (inv_wfc _ I _ _ (get_In _ _ _ Hg)) as (Hid & Hpos & Hs1 & Hs2 & Ht1 & Ht2 & Hkind).
+  destruct (inv_wfc _ I _ _ (get_In _ _ _ Hg)) as (Hid & Hpos & Hs1 & Hs2 & Ht1 & Ht2 & Hrng & Hkind).
   assert (Hbl : blocked (c_sender c) = false) by (unfold blocked; apply Z.eqb_neq; exact Hs2).
   assert (Hescto : (ESC =? c_sender c) = false) by (apply Z.eqb_neq; congruence).
   assert (Hne : ESC <> c_sender c) by congruence.
@@ -946,7 +962,7 @@ Qed.
 Lemma step_inv s o : Inv s -> Strict s -> wf_op o ->
   Inv (step s o) /\ Strict (step s o) /\ st_params (step s o) = st_params s.
 Proof.
-  intros I S W. unfold step. destruct o as [m|who id secret|dts]; simpl.
+  intros I S W. unfold step. destruct o as [m|who id secret|dts|gw gP]; simpl.
   - destruct (create s m) as [s'|] eqn:Hc; [|auto].
     destruct (create_open_rel s m s' I W Hc) as (dr & R). pose proof (create_lock _ _ _ Hc) as Hl.
     split; [exact (open_rel_inv _ _ _ _ I R)|]. split; [|exact (or_params _ _ _ _ R)].
@@ -958,6 +974,7 @@ Proof.
     destruct Hs as (_ & c & Hg & Ho & _ & R).
     split; [exact (close_rel_inv _ _ _ _ _ I R)|]. split; [exact (close_rel_strict _ _ _ _ _ S R)|exact (cr_params _ _ _ _ _ R)].
   - destruct (adv_spec dts s I S) as (I' & S' & Hp & _). auto.
+  - destruct W.
 Qed.
 
 (** one step never deletes a contract and changes it at most by closing it, if it was open *)
@@ -965,7 +982,7 @@ Lemma step_contract s o : Inv s -> Strict s -> wf_op o -> forall id c, get id (s
   exists c', get id (st_contracts (step s o)) = Some c'
     /\ (c' = c \/ (c_state c = Open /\ exists st h, st <> Open /\ c' = close c st h)).
 Proof.
-  intros I S W id c Hg. unfold step. destruct o as [m|who id0 secret|dts]; simpl.
+  intros I S W id c Hg. unfold step. destruct o as [m|who id0 secret|dts|gw gP]; simpl.
   - destruct (create s m) as [s'|] eqn:Hc; [|exists c; auto].
     destruct (create_open_rel s m s' I W Hc) as (dr & R).
     exists c. split; [|left; reflexivity]. rewrite (or_contracts _ _ _ _ R), get_set_other; [exact Hg|].
@@ -979,6 +996,7 @@ Proof.
   - destruct (adv_spec dts s I S) as (_ & _ & _ & Hc). destruct (Hc id c Hg) as (c' & Hg' & Hor).
     exists c'. split; [exact Hg'|]. destruct Hor as [->|(Ho & h & _ & ->)]; [left; reflexivity|].
     right. split; [exact Ho|]. exists Refunded, h. split; [discriminate|reflexivity].
+  - destruct W.
 Qed.
 
 Definition params_ok (P : list aparam) : Prop := Forall (fun p => 0 <= ap_limit p /\ 0 <= ap_tbl p) P.
@@ -1001,6 +1019,7 @@ Proof.
       unfold get_param in Hp. apply find_some in Hp. destruct Hp as [Hin _].
       unfold params_ok in HP. rewrite Forall_forall in HP. destruct (HP p Hin) as [H1 H2].
       split; [unfold lim_ok; cbn; repeat split; try lia; intros; lia|reflexivity].
+    + constructor.
     + constructor.
   - intros id c Hg. discriminate.
 Qed.
@@ -1077,7 +1096,7 @@ Lemma duplicate_rejected_lemma s m : has (id_of m) (st_contracts s) = true -> st
 Proof.
   intros H. unfold step_ok. simpl. unfold create.
   destruct (negb (create_basic m)); [reflexivity|]. destruct (blocked (m_to m)); [reflexivity|].
-  cbv zeta. rewrite H. reflexivity.
+  destruct (m_to m =? ESC); [reflexivity|]. cbv zeta. rewrite H. reflexivity.
 Qed.
 
 (** the block whose height equals the expiration height refunds exactly the contracts still open *)
@@ -1274,6 +1293,7 @@ Proof. intros H. destruct (with_asset_Some _ _ _ _ H) as (? & ? & ? & _ & _ & _ 
 Lemma create_Acc s m s' : create s m = Some s' -> Acc s s'.
 Proof.
   unfold create. destruct (negb (create_basic m)); [discriminate|]. destruct (blocked (m_to m)); [discriminate|].
+  destruct (m_to m =? ESC); [discriminate|].
   cbv zeta. destruct (has (id_of m) (st_contracts s)); [discriminate|]. destruct (m_transfer m).
   - destruct (create_htlt s m) as [[s1 dr]|] eqn:Hh; [|discriminate]. intros H; inversion H; subst s'.
     apply (Acc_trans _ s1); [|apply Acc_same; reflexivity].
@@ -1349,10 +1369,11 @@ Qed.
 
 Lemma step_Acc s o : Acc s (step s o).
 Proof.
-  unfold step. destruct o as [m|who id secret|dts]; simpl.
+  unfold step. destruct o as [m|who id secret|dts|gw gP]; simpl.
   - destruct (create s m) eqn:H; [exact (create_Acc _ _ _ H)|apply Acc_refl].
   - destruct (claim s who id secret) eqn:H; [exact (claim_Acc _ _ _ _ _ H)|apply Acc_refl].
   - apply fold_Acc. intros; apply begin_block_Acc.
+  - destruct ((gw =? GOV) && params_valid gP); [apply Acc_same; reflexivity|apply Acc_refl].
 Qed.
 
 Lemma bank_is_log_lemma P b t0 ops a d :
@@ -1383,7 +1404,7 @@ Lemma created_open_lemma s o id c : Inv s -> Strict s -> wf_op o ->
   get id (st_contracts s) = None -> get id (st_contracts (step s o)) = Some c ->
   c_state c = Open /\ c_closed c = 0 /\ st_height s < c_exp c /\ exists m, o = Create m /\ id = id_of m.
 Proof.
-  intros I S W Hn Hg. unfold step in Hg. destruct o as [m|who id0 secret|dts]; simpl in Hg.
+  intros I S W Hn Hg. unfold step in Hg. destruct o as [m|who id0 secret|dts|gw gP]; simpl in Hg.
   - destruct (create s m) as [s'|] eqn:Hc; [|congruence].
     destruct (create_open_rel s m s' I W Hc) as (dr & R). pose proof (create_lock _ _ _ Hc) as Hl.
     rewrite (or_contracts _ _ _ _ R), get_set in Hg. destruct (eq_dec id (id_of m)) as [->|Hne]; [|congruence].
@@ -1397,6 +1418,7 @@ Proof.
       destruct (begin_block_spec s dt I S) as (I1 & S1 & _ & _ & Hc). apply IH; [exact I1|exact S1|].
       rewrite Hc, Hn. reflexivity. }
     rewrite (H dts s I S Hn) in Hg. discriminate.
+  - destruct W.
 Qed.
 
 Lemma claim_htlt_win s id c s' d x cs : c_amount c = (d, x) :: cs -> claim_htlt s id c = Some s' ->
